@@ -485,7 +485,14 @@ def run(ctx, chk):
             cf = tuple(cmds.get(pty) or ())
             if cf in want_by_cf:
                 n_pl += 1
-                chk.require(pty == want_by_cf[cf], "C15/reply-payload", "%s %02X %02X" % ((sname,) + cf),
+                same = pty == want_by_cf[cf]
+                if not same:
+                    # judged by content, not by name: another type with the same rows (spec/layout.json, which C03 holds the
+                    # code to) decodes the same content
+                    lay = ctx.spec("layout.json")
+                    ra, rb = (lay.get(pty) or {}).get("rows"), (lay.get(want_by_cf[cf]) or {}).get("rows")
+                    same = ra is not None and ra == rb
+                chk.require(same, "C15/reply-payload", "%s %02X %02X" % ((sname,) + cf),
                             "the reply %02X %02X of this command is decoded as %s; the specification table says %s (the content of "
                             "the variant is then not what the command's own reply carries)" % (cf + (pty, want_by_cf[cf])),
                             "payload type agrees", ent.get("sp"))
